@@ -22,7 +22,12 @@ def cases(rng, tier, X):
         a = attrs(rng)
         ops = [F.iface_line(0, mac=F.OWN, mtu=mtu, **a), F.iface_line(1, mac=F.OWN, mtu=mtu, **a),
                F.glob_line(icon=rng.choice(['none', 'gen:700:1', 'gen:2000:2']), fname=rng.choice(['none', '41004200']), hwid='4100')]
+        clocked = rng.random() < 0.5
+        if clocked:
+            ops.append('clock %d' % rng.choice([1, 1000, 5000]))
         for f in history(rng, F.OWN, mtu):
+            if clocked and rng.random() < 0.5:
+                ops.append('clock %d' % rng.choice(F.CLOCK_STEPS[:10]))     # time passes; in particular Resets a few milliseconds apart
             ops.append('rx 0 %s%s' % (f, rng.choice(['', ' zero'])))
             if rng.random() < 0.05:
                 ops.append('glob icon=%s' % rng.choice(['gen:300:7', 'gen:900:8', 'none']))
@@ -30,6 +35,15 @@ def cases(rng, tier, X):
             ops.append('glob icon=%s' % rng.choice(['gen:100:9', 'gen:1200:4', 'none', '-']))
         if rng.random() < 0.3:
             ops.append('glob host=%s' % rng.choice(['6161', '-', '62' * 33]))
+        if rng.random() < 0.3:
+            # an earlier Reset a few milliseconds before the one under test, with state-building frames in between
+            m = rng.choice(F.STATIONS)
+            ops.append('rx 0 %s zero' % F.reset(m, tos=0))
+            for f in [F.discover(m, 9, 9), F.probe(F.STATIONS[1], F.OWN, F.STATIONS[1], F.OWN), F.qltlv(m, F.OWN, 3, 0x0e, 0)]:
+                ops.append('clock %d' % rng.choice([0, 1, 5, 20, 30]))
+                ops.append('rx 0 %s zero' % f)
+        if clocked:
+            ops.append('clock %d' % rng.choice(F.CLOCK_STEPS[:10]))
         ops.append('rx 0 %s zero' % F.reset(rng.choice(F.STATIONS), tos=0))
         ops.append('note continuation')
         cont = []
